@@ -102,14 +102,16 @@ def checkSqlw : P String := do
   if (status == "ok") != mok then corr := s!"fail:status_model={mok}_impl={status}"
   else if !(mtrace.length == trace.length && (mtrace.zip trace).all (fun (m, t) => callEq m t)) then
     corr := "fail:trace-differs"
-  -- ---- C13: every statement lexes to exactly the tokens of the statement the plan calls for ----
-  let planStmts : List Stmt := match bodyPlan f table o ex with
-    | .ok (calls, _) => calls.filterMap (fun c => match c with | .exec s _ => some s | _ => none)
-    | _ => []
-  let expectedToks := planStmts.map (tokensOf d)
+  -- ---- C13: every statement lexes to one of the three statement shapes whose identifiers are exactly the
+  -- table name and the column names: no name ended its identifier early or added tokens ----
   for t in trace do
     if t.kind == "E" || t.kind == "EA" then
-      if !(expectedToks.contains (lex d t.text)) then c13 := firstFail c13 "fail:unexpected-tokens"
+      let good := match parse (lex d t.text) with
+        | some (.drop tn) => tn == table
+        | some (.create tn cols) => tn == table && cols.map (·.1) == f.keys
+        | some (.insert tn cols _) => tn == table && cols == f.keys
+        | none => false
+      if !good then c13 := firstFail c13 "fail:identifier-tokens"
   -- ---- abstract database ----
   let oldRow : List (Str × Cell) := f.keys.map (fun k => (k, Cell.nil))
   let init : DB := if ex then [(table, { cols := f.keys.map (fun k => (k, ([] : List Tok))), rows := [oldRow] })] else []
@@ -179,5 +181,21 @@ def checkSqlw : P String := do
   let nontriv := ninserts ≥ 1
   let kindS := if fa.isSome then "fault" else "plain"
   pure s!"c11={c11} c12={c12} c13={c13} corr={corr} nontrivial={if nontriv then 1 else 0} st_kind={kindS} st_entry={entry} st_inserts={min ninserts 4} st_status={status}"
+
+/-- `qid` engine: QuoteIdentifier against the model and the independent lexer -/
+def checkQid : P String := do
+  let _ ← pOracle
+  expect "Q"
+  let name ← pStr
+  let mut c13 := "ok"
+  let mut corr := "ok"
+  for d in [Dialect.sqlite, Dialect.postgres, Dialect.mysql] do
+    let st ← next
+    let quoted ← pStr
+    if st != "ok" then c13 := firstFail c13 s!"fail:{st}"
+    if lexQuoted d.q quoted != some (name, []) then c13 := firstFail c13 "fail:not-a-single-identifier-with-that-value"
+    if quoted != quoteIdent d.q name then corr := firstFail corr "fail:quoteIdent-differs"
+  let special := name.any (fun b => b == 34 || b == 96)
+  pure s!"c13={c13} corr={corr} nontrivial={if special then 1 else 0} st_len={min name.length 8}"
 
 end Goframe.Driver
